@@ -12,7 +12,9 @@ package phantoms
 import (
 	"crypto/sha256"
 	"encoding/binary"
+	"encoding/json"
 	"fmt"
+	"os"
 	"sync"
 	"testing"
 
@@ -160,6 +162,16 @@ func c14FailGens() []c14GenCfg {
 	}
 }
 
+// c14InFlight writes the case about to be run concurrently straight to stderr (not through the test
+// log, which is lost when the runtime aborts): an unrecoverable abort of the code under test
+// ("fatal error: concurrent map writes") or a race-detector report is turned into a violation by
+// vcheck from the process log, and this line is what makes that log a reproducer: put the JSON in a
+// file as {"sub": ..., "case": ...} and pass it to --replay.
+func c14InFlight(sub string, c any) {
+	b, _ := json.Marshal(c)
+	fmt.Fprintf(os.Stderr, "C14 %s: concurrent pass, in-flight case: %s\n", sub, b)
+}
+
 func c14RunSerial(b *c14Built, qs []c14Query) []c14Out {
 	out := make([]c14Out, len(qs))
 	for i, q := range qs {
@@ -266,6 +278,7 @@ func c14CheckPurity(t vh.Fataler, rec *vh.Rec, env *c14Env, c c14PurityCase, rou
 			return
 		}
 	}
+	c14InFlight("purity", c)
 	for round := 0; round < rounds; round++ {
 		views := c14RunConcurrent(b, qs, c.G, c.Mode)
 		nd, first, firstView := 0, -1, 0
